@@ -19,6 +19,11 @@ CLAIMS = {
   "The observational equivalence of registers on/off over whole programs is a two-run relation over the rewritten body that per-function contracts cannot state; it is covered by a bounded differential stand-in "
   "(3000 generated programs quick, 40000 thorough), labelled bounded and not counted as proved. Seven genuine differences are recorded as known findings.",
   "Assumed: setupRegister frame (ast.Modify callback), (*Register).Ptr non-nil, frame contracts of the assumed Eval family; panic exits rely on the defer and are not modelled."),
+ "C06": ("proof",
+  "The functions that implement index assignment, element deletion and + on arrays and maps carry the postcondition 'no element of any slice/array block that existed before the call has changed' (memsame), which is what every other binding, argument or container element of the old value observes; "
+  "map merging (SmallMap.Append, BigMap.Append, SmallMap.Set) is proved to write only storage the call allocates, BigMap.Set/Delete are proved against an explicit frame (their receiver's pairs only). For big arrays and big maps the in-place writes of evalIndexAssigment, deleteMapEntry and array + fail these obligations: genuine defects (the repairs cost O(n) per element assignment and were measured to slow the repository's own examples 30x, so they are recorded, not fixed). "
+  "An SSA audit lists every function that can write pre-existing element memory at all; each is under a C06 contract or on a reviewed list. A bounded stand-in (sizes 0..20, literal and appended histories) cross-checks with concrete programs.",
+  "Assumed: Environment.Get frame, slices.Insert contract, reviewed writers (sort adapter, per-call argument slices, syntax-tree rewriting), extensions that build containers. Bounded stand-in is not a proof."),
  "C07": ("proof",
   "Zero-annotation safety sweep plus contracts: for the functions reachable from program evaluation that are under contract, every index, slice, nil dereference, type assertion, division, shift, make() size and explicit panic site is an "
   "obligation proved unreachable for all inputs (or named in a maypanic clause that the caller handles as a language error). Extension calls go through applyExtension whose dyncall contract requires the argument-count/type checks to have passed.",
@@ -69,7 +74,6 @@ NOT_APPLICABLE = {
  "C02": "contracts for this property are not implemented yet (work in progress, see DESIGN.md section 6)",
  "C03": "contracts for this property are not implemented yet (work in progress, see DESIGN.md section 6)",
  "C04": "contracts for this property are not implemented yet (work in progress, see DESIGN.md section 6)",
- "C06": "contracts for this property are not implemented yet (work in progress, see DESIGN.md section 6)",
  "C13": "contracts for this property are not implemented yet (work in progress, see DESIGN.md section 6)",
  "C14": "contracts for this property are not implemented yet (work in progress, see DESIGN.md section 6)",
  "C15": "contracts for this property are not implemented yet (work in progress, see DESIGN.md section 6)",
